@@ -343,6 +343,29 @@ Example c09_jwe_header_kept_instance :
   reg_is_jwe (ta_reg (mkta 1 None (Some (true, 1%N)))) = true.
 Proof. exact jwe_header_kept_instance. Qed.
 
+(* c09_forged_token_never_decodes: jwt.decode returns only after the integrity check of the
+   transport passed, whatever decoder_cls / key form / algorithms / registry: if the selected
+   transport rejects every token of a class (forged: changed in an authenticated octet,
+   wrong-length tag or signature, presented with another key ...), jwt.decode raises the
+   transport's error for every such token and never returns claims.  The transport's verdict
+   on every forged token of the tamper stream is compared with this contract
+   (forged_contract in C09Cases.v). *)
+Theorem c09_forged_token_never_decodes :
+  forall (json_loads : option N -> bytes -> res pv)
+         (jws_decode jwe_decode : bytes -> targs -> res (hdr * bytes))
+         (forged : bytes -> targs -> Prop),
+    (forall tok a, forged tok a -> exists e, jws_decode tok a = Err e) ->
+    (forall tok a, forged tok a -> exists e, jwe_decode tok a = Err e) ->
+    forall tok a decoder_cls, forged tok a ->
+      exists e, jwt_decode json_loads jws_decode jwe_decode tok a decoder_cls = Err e /\
+                (if reg_is_jwe (ta_reg a) then jwe_decode tok a else jws_decode tok a) = Err e.
+Proof. exact api_forged_never_decodes. Qed.
+
+Example c09_forged_instance :
+  jwt_decode (fun _ => toy_loads) (fun t _ => toy_tdec t) (fun t _ => toy_tdec t)
+             (asc "e30.e30.AA") (mkta 1 None None) None = Err (EJose BadSignatureError).
+Proof. exact forged_instance. Qed.
+
 (* integrity first, stated against the payload parser: with a failing transport
    no parser is consulted *)
 Theorem c09_integrity_independent_of_payload : forall jl1 jl2 td tok e,
@@ -407,4 +430,5 @@ Print Assumptions c09_rt_any_options.
 Print Assumptions c09_default_encoder_is_instance.
 Print Assumptions c09_decode_header_is_wire_header.
 Print Assumptions c09_jwe_header_kept.
+Print Assumptions c09_forged_token_never_decodes.
 Print Assumptions c09_contracts_satisfiable.
